@@ -314,7 +314,7 @@ IMPORTS = ['Base.C11_Lib', 'Gen.C11_RsaDecrypt', 'Gen.C11_RsaKex', 'Spec.C11_Pkc
 def gen_decrypt_cases(ctx, quick):
     """list of dict(keyname, cls, ct, forced_em|None, em (expected block))"""
     rng = ctx.rng
-    names = ['pem', 88, 96, 512, 1024, 1096, 1104] + ([] if quick else [2048, 3072])
+    names = ['pem', 88, 96, 512, 1096, 1104] + ([] if quick else [1024, 2048, 3072])
     reps = 1 if quick else 4
     cases = []
     for name in names:
@@ -343,7 +343,7 @@ def gen_forced_groups(ctx, quick):
     for name in names:
         key = get_key(name)
         n, k = int(key.n), kbytes(key.n)
-        for _ in range(2 if quick else 6):
+        for _ in range((1 if name == 'pem' else 2) if quick else 6):
             while True:
                 ct = bytes(rng.randrange(256) for _ in range(k))
                 if int.from_bytes(ct, 'big') < n:
@@ -492,6 +492,15 @@ def helper_cases(ctx, quick):
 # --------------------------------------------------------------------------- run
 def run(ctx):
     quick = ctx.tier == 'quick'
+    # one report per failing class (key): later hits of the same key are only counted
+    seen, raw_violation = {}, ctx.violation
+
+    def violation_once(key, what, replay, found_input=True):
+        seen[key] = seen.get(key, 0) + 1
+        if seen[key] > 1:
+            return True
+        return raw_violation(key, what, replay, found_input)
+    ctx.violation = violation_once
     tie_broken = None
     for u in ('ConstantTime', 'C11_RsaDecrypt', 'C11_RsaKex'):
         ok, msg = units.generate(u, vlib.COQ)
